@@ -32,7 +32,8 @@ def params(draw, tier):
         s["frac"] = min(s["frac"], 0.9)
     p["cm"] = False
     p["guess_frac"] = 0.0
-    p["t0"] = draw(st.sampled_from([0.0, 3.5, -2.0, 100.0]))
+    # also time stamps with a large offset against the frame interval (seconds since an epoch, a long recording)
+    p["t0"] = draw(st.sampled_from([0.0, 3.5, -2.0, 100.0, 6.0e5, 1.7e9]))
     p["dts"] = [draw(st.sampled_from([1.0, 0.5, 2.0, 0.013, 7.0, 1e-3, 60.0])) for _ in range(p["n_frames"] - 1)]
     p["adim"] = draw(st.booleans())
     p["vnorm"] = draw(st.sampled_from([1, 1, 0.5, 3.0]))
@@ -198,7 +199,7 @@ def check_case(p, ctx):
 
 
 def run(ctx):
-    drive(ctx, params(ctx.tier), check_case, ctx.budget(quick=120, thorough=700), label="series")
+    drive(ctx, params(ctx.tier), check_case, ctx.budget(quick=200, thorough=700), label="series")
 
 
 CASES = {"series": check_case}
